@@ -12,7 +12,7 @@ import fcntl, hashlib, json, os, re, shutil, subprocess, sys, time
 V = '/verif'
 LEAN = V + '/lean'
 HARNESS = V + '/harness'
-WORK = V + '/work'
+WORK = '/dev/shm/ructe-verif-work' if os.path.isdir('/dev/shm') else V + '/work'
 sys.path.insert(0, V + '/tools')
 import plans  # noqa: E402
 
